@@ -92,6 +92,10 @@ func (h *harness) registerDump(text string) (MapAbs, bool) {
 	if n.kind != 'o' {
 		return MapAbs{}, false
 	}
+	var probe map[string]interface{}
+	if json.Unmarshal([]byte(text), &probe) != nil {
+		return MapAbs{}, false // e.g. a number outside float64: no transport can carry it
+	}
 	v := n.toGo().(map[string]interface{})
 	d := dumpValue(v)
 	dumpTable[d] = v
@@ -679,6 +683,9 @@ func (h *harness) checkOp(cs Case, verbose bool) opResult {
 					}
 				}
 				if !stable {
+					if os.Getenv("C17_DEBUG") != "" {
+						fmt.Printf("UNSTABLE [%s] %s\n  first carrier: %s\n  first ref:     %s\n  query %q vars %s\n", fl, c, o.key(), ref.key(), op.Query, strPtr(op.Vars))
+					}
 					h.run.Count("op:nondeterministic-pipeline (skipped)")
 					res.nondeterm = true
 					continue
@@ -715,6 +722,9 @@ func (h *harness) checkOp(cs Case, verbose bool) opResult {
 			a2, _ := h.evalCore(w, coreCall{hook: true, feat: plain.Feat, cost: plain.Cost, q: op.Query, op: op.OpName, vars: varsAtom, exts: "nil"})
 			b2, _ := h.evalCore(h.world(plain), coreCall{hook: false, feat: plain.Feat, cost: plain.Cost, q: op.Query, op: op.OpName, vars: varsAtom, exts: "nil"})
 			if a2.key() != a.key() || b2.key() != b.key() {
+				if os.Getenv("C17_DEBUG") != "" {
+					fmt.Printf("UNSTABLE-CLONE [%s]\n  a:  %s\n  a2: %s\n  b:  %s\n  b2: %s\n  query %q vars %s\n", plain, a.key(), a2.key(), b.key(), b2.key(), op.Query, strPtr(op.Vars))
+				}
 				h.run.Count("op:nondeterministic-pipeline (skipped)")
 				continue
 			}
